@@ -254,7 +254,8 @@ def _run_cmd_case(ctx, case) -> F.Outcome:
         return _run_whitelist_lifecycle(ctx, case)
     if case[1] == "long-tail":
         return _run_long_tail(ctx, case)
-    _, name, text, mode = case
+    _, name, text, mode = case[:4]
+    from_sub = len(case) > 4 and case[4] == "from-sub"
     day = H.DEFAULT_DAY
     out = F.Outcome()
     r0 = zo.compile_text(text)
@@ -264,6 +265,14 @@ def _run_cmd_case(ctx, case) -> F.Outcome:
     good = "# good\n\n- 240102#G1 good note\n"
     zd = Z.make_zdir({"good.zo": good, "zz_target.zo": text})
     problems = []
+    if from_sub:
+        # the command is started from <notes directory>/sub, which holds clean pages with the very names
+        # of the pages of the notes directory (a backup, a project of its own): page names are relative
+        # to --dir, never to the working directory
+        (zd / "sub").mkdir()
+        Z.write_text(zd / "sub" / "zz_target.zo", "# clean twin\n\n- 240104#S1 a clean note in the sub-directory\n")
+        Z.write_text(zd / "sub" / "good.zo", "# clean twin\n\n- 240104#S2 another clean note\n")
+        H.set_cli_cwd(zd / "sub")
     try:
         if mode == "create":
             r = Z.db_create(zd, day)
@@ -330,6 +339,7 @@ def _run_cmd_case(ctx, case) -> F.Outcome:
             out.sig = f"command:{problems[0][0]}{suffix}"
             out.detail = {"name": name, "mode": mode, "text": text, "nsyntax": n, "problems": problems}
     finally:
+        H.set_cli_cwd(None)
         Z.drop(zd)
     return out
 
@@ -537,6 +547,8 @@ def _cases(ctx):
             if name.startswith("unusual-item:") and mode == "create-f":
                 continue
             flat.append(["cmd", name, text, mode])
+            if not name.startswith("unusual-item:") and mode != "create-f":
+                flat.append(["cmd", name, text, mode, "from-sub"])
     for wl_path, new_path in (("archive/journal.zo", "journal.zo"), ("journal.zo", "archive/journal.zo"),
                               ("p10.zo", "p1.zo"), ("p1.zo", "p10.zo"), ("ab.zo", "b.zo"), ("a/b.zo", "a/b.zo.zo")):
         for mode in ("create", "reindex"):
